@@ -352,12 +352,17 @@ Section Roundtrip.
   Hypothesis Hb0 : lenN buf0 = BUFF.
   Hypothesis Hn : lenN log <= MAXFRAMES.
   Hypothesis Hok : Forall logent_ok log.
+  (* round 3: the descriptor byte is ANY byte whose reserved bits 2..6 are clear and whose bit 7 is the flag (bits 0..1 are unused
+     and ignored by the loader) *)
+  Variable sfd : N.
+  Hypothesis Hsfd_res : (sfd / 4) mod 32 = 0.
+  Hypothesis Hsfd_fl : negb (sfd / 128 =? 0) = fl.
 
   Let n := lenN log.
   Let E := flat_map (entry_bytes fl) log.
   Let sz := spe fl * n + 9.
   Let Hd := le32 SKIPMAGIC ++ le32 sz.
-  Let F := le32 n ++ [sfd_of (cf_of fl)] ++ le32 MAGIC.
+  Let F := le32 n ++ [sfd] ++ le32 MAGIC.
   Let file := pre ++ Hd ++ E ++ F.
   Let rest0 := skipN buf0 9.
 
@@ -368,16 +373,6 @@ Section Roundtrip.
   Lemma rt_F : lenN F = 9. Proof. reflexivity. Qed.
   Lemma rt_file : lenN file = lenN pre + 8 + spe fl * n + 9.
   Proof. unfold file. rewrite !lenN_app, rt_Hd, rt_E, rt_F. lia. Qed.
-
-  Lemma rt_bytes : seek_table_bytes (cf_of fl) log = Hd ++ E ++ F.
-  Proof.
-    pose proof rt_p. pose proof (spe_bounds fl).
-    assert (Hfs : flag_set (cf_of fl) = fl) by (destruct fl; reflexivity).
-    unfold seek_table_bytes, table_size. fold n. rewrite Hfs, SKIPHDR_eq, FOOTER_eq.
-    rewrite w64_small by lia. rewrite sub32_small by lia.
-    replace (8 + spe fl * n + 9 - 8) with sz by (unfold sz; lia).
-    unfold Hd, F, E. now rewrite <- !app_assoc.
-  Qed.
 
   Lemma rt_footer : ld_footer BUFF file buf0 = Ok (F ++ rest0, fl, n).
   Proof.
@@ -391,20 +386,17 @@ Section Roundtrip.
     { unfold file at 1. replace (lenN file - 9) with (lenN pre + (lenN Hd + (lenN E + 0))) by (rewrite rt_Hd, rt_E; lia).
       rewrite !sliceN_app_skip. unfold sliceN. rewrite skipN_0. apply firstN_all. rewrite rt_F. lia. }
     rewrite Hfoot. rewrite store_0 by (rewrite rt_F; lia). rewrite rt_F. fold rest0.
-    assert (Hsfd : sfd_of (cf_of fl) = if fl then 128 else 0) by (destruct fl; reflexivity).
     assert (Hbuf : F ++ rest0 = (n mod 256) :: ((n / 256) mod 256) :: ((n / 65536) mod 256) :: ((n / 16777216) mod 256)
-                                :: sfd_of (cf_of fl) :: (le32 MAGIC ++ rest0)) by reflexivity.
+                                :: sfd :: (le32 MAGIC ++ rest0)) by reflexivity.
     assert (A1 : rd32 (skipN (F ++ rest0) 5) = MAGIC).
     { rewrite Hbuf, skipN5. apply rd32_le32_app, MAGIC_lt. }
-    assert (A2 : nthN (F ++ rest0) 4 0 = if fl then 128 else 0).
-    { rewrite Hbuf, nthN4. exact Hsfd. }
+    assert (A2 : nthN (F ++ rest0) 4 0 = sfd).
+    { rewrite Hbuf, nthN4. reflexivity. }
     assert (A3 : rd32 (F ++ rest0) = n).
     { unfold F. rewrite <- app_assoc. apply rd32_le32_app. lia. }
     rewrite A1, A2, A3, N.eqb_refl. cbn [negb].
-    assert (Hres : negb (((if fl then 128 else 0) / 4) mod 32 =? 0) = false) by (destruct fl; reflexivity).
-    rewrite Hres.
-    assert (Hflag : negb ((if fl then 128 else 0) / 128 =? 0) = fl) by (destruct fl; reflexivity).
-    rewrite Hflag. reflexivity.
+    rewrite Hsfd_res, N.eqb_refl. cbn [negb].
+    rewrite Hsfd_fl. reflexivity.
   Qed.
 
   Let toRead := N.min (spe fl * n + 8) BUFF.
@@ -416,6 +408,7 @@ Section Roundtrip.
   Proof.
     pose proof rt_p. pose proof rt_n. pose proof rt_file as Hfl. pose proof (spe_bounds fl).
     unfold ld_header. rewrite FOOTER_eq, SKIPHDR_eq.
+    assert (G0 : (MAXFRAMES <? n) = false) by (apply N.ltb_ge; exact Hn). rewrite G0.
     rewrite (w32_small (spe fl * n)) by lia.
     rewrite (w32_small (spe fl * n + 9 + 8)) by lia.
     rewrite (sub32_small (spe fl * n + 9 + 8) 9) by lia.
@@ -478,10 +471,10 @@ Section Roundtrip.
       + unfold toRead. lia.
   Qed.
 
-  Lemma seektable_roundtrip_gen : load_seek_table BUFF (pre ++ seek_table_bytes (cf_of fl) log) buf0 = Ok (table_of fl log).
+  Lemma seektable_roundtrip_frame : load_seek_table BUFF (pre ++ Hd ++ E ++ F) buf0 = Ok (table_of fl log).
   Proof.
     pose proof rt_p. pose proof rt_n.
-    rewrite rt_bytes. fold file. unfold load_seek_table.
+    fold file. unfold load_seek_table.
     rewrite rt_footer. cbn [rbind]. rewrite rt_header. cbn [rbind].
     rewrite (w32_small (n + 1)) by lia.
     destruct (ld_loop_ok BUFF Blo Bhi file fl (n + 1) log Hok s0 [] rt_inv0) as (s1 & E1 & I1 & Ec & Ed & Ee);
@@ -496,6 +489,30 @@ Section Roundtrip.
     rewrite app_nil_r, rev_involutive, !N.add_0_l. symmetry. apply cum_cumh.
   Qed.
 End Roundtrip.
+
+(* the table frame with an arbitrary descriptor byte (what the loader looks at); [seek_table_bytes] is the instance the writer emits *)
+Definition table_frame (fl : bool) (sfd : N) (log : list logent) : list N :=
+  (le32 SKIPMAGIC ++ le32 (spe fl * lenN log + 9)) ++ flat_map (entry_bytes fl) log ++ le32 (lenN log) ++ [sfd] ++ le32 MAGIC.
+
+Lemma seek_table_bytes_frame fl log : lenN log <= MAXFRAMES ->
+  seek_table_bytes (cf_of fl) log = table_frame fl (sfd_of (cf_of fl)) log.
+Proof.
+  intros Hn. pose proof MAXFRAMES_le. pose proof (spe_bounds fl).
+  assert (Hp : spe fl * lenN log <= 1610612736) by (destruct fl; cbn [spe]; lia).
+  assert (Hfs : flag_set (cf_of fl) = fl) by (destruct fl; reflexivity).
+  unfold seek_table_bytes, table_size, table_frame. rewrite Hfs, SKIPHDR_eq, FOOTER_eq.
+  rewrite w64_small by lia. rewrite sub32_small by lia.
+  replace (8 + spe fl * lenN log + 9 - 8) with (spe fl * lenN log + 9) by lia.
+  now rewrite <- !app_assoc.
+Qed.
+
+Lemma seektable_roundtrip_gen BUFF fl log pre buf0 :
+  17 <= BUFF -> BUFF + 12 < 4294967296 -> lenN buf0 = BUFF -> lenN log <= MAXFRAMES -> Forall logent_ok log ->
+  load_seek_table BUFF (pre ++ seek_table_bytes (cf_of fl) log) buf0 = Ok (table_of fl log).
+Proof.
+  intros Blo Bhi Hb0 Hn Hok. rewrite seek_table_bytes_frame by assumption.
+  apply seektable_roundtrip_frame; try assumption; destruct fl; reflexivity.
+Qed.
 
 (* ------------------------------------------------------------------ arbitrary bytes: no Trap, and a loaded table is well formed *)
 Fixpoint asc (l : list seek_entry) : Prop :=
